@@ -59,6 +59,9 @@ def run(rep, tier):
              'kind/sequence x start residue', floor=60)
     rep.rule('R3', 'the size and operand shown for an instruction are what the image contains: the getSize()-byte prefix chain written for '
              'an immediate reconstructs exactly the printed value (all value classes, as C04-R2/R3 for one mnemonic)', floor=40)
+    rep.rule('R5', 'label references (as C05-R7/R7b): the offsets listed for the directives behind a reference that had to grow are the '
+             'offsets of the final layout (every directive starts where the previous one ends), and a reference that is longer than its '
+             'final operand needs is emitted with the listed number of bytes', floor=20)
     rep.rule('R4', 'both listing entry points print the CodeGen object that emitBin would emit, after label resolution', floor=2)
     f = idx.func('hexasm::CodeGen::emitProgramText')
     rep.analysed(f.sig)
@@ -122,6 +125,9 @@ def run(rep, tier):
     # R2: import the layout == emission rule
     sub = _SubReport(rep, 'R2')
     c05.rule_layout_emission(sub, idx)
+    # R5: references that grow / are longer than needed
+    c05.rule_relative(_SubReport(rep, 'R5', 'R7'), idx, 'quick')
+    c05.rule_oversized(_SubReport(rep, 'R5', 'R7b'), idx, 'R7b')
     # R3: value classes for one mnemonic
     emit = idx.func('hexasm::CodeGen::emitProgramBin')
     classes = []
@@ -151,17 +157,21 @@ def run(rep, tier):
 class _SubReport:
     """Route another property's rule function into this report under one rule id."""
 
-    def __init__(self, rep, rid):
+    def __init__(self, rep, rid, src='R5'):
         self.rep = rep
         self.rid = rid
+        self.src = src
 
     def rule(self, *a, **k):
         pass
 
     def add(self, rule, key, ok, where='', detail='', nontrivial=True, data=None):
-        if rule == 'R5':
+        if rule == self.src:
             return self.rep.add(self.rid, key, ok, where, detail, nontrivial, data)
         return ok
+
+    def undecided(self, rule, key, why, where=''):
+        return self.rep.undecided(self.rid, key, why, where)
 
     def __getattr__(self, n):
         return getattr(self.rep, n)
